@@ -12,12 +12,42 @@ import (
 	ophosttypes "github.com/initia-labs/OPinit/x/ophost/types"
 
 	"verifharness/mon"
+	"verifharness/ref"
 	"verifharness/sim"
 )
 
 // c10Reentrant: while a deposit's coins are being moved into the escrow, code running inside that transfer (a send
 // restriction, a transfer hook of the host chain) makes another deposit into the same bridge. Both are deposits in their
 // own right: each gets its own consecutive sequence number, returned and announced once.
+// c10DrainKeepsPair: the denom pair registered by the first deposit of a denom stays registered when every unit of it
+// has left the escrow again ("never changes" has no exception for an empty escrow).
+func c10DrainKeepsPair(run *mon.Run, rng *mon.Rand) {
+	run.Declare("C10.token_pair_survives_drained_escrow", 2)
+	for _, parts := range []int{1, 3} {
+		env := newL1Env(1, []time.Duration{5 * time.Second})
+		user := env.Users[1]
+		if r := env.Deposit(env.Users[0], 1, "l2", "uusdc", math.NewInt(300), nil); r.Class != sim.OK {
+			panic(r.ErrString())
+		}
+		var ws []Withdrawal
+		for i := 0; i < parts; i++ {
+			ws = append(ws, Withdrawal{1, uint64(i + 1), "l2sender", user.String(), "uusdc", uint64(300 / parts)})
+		}
+		o := env.ProposeTree(1, ws, 0, rng)
+		env.L1.NextBlock(6 * time.Second)
+		var tr []string
+		for i := range ws {
+			res := env.L1.Deliver(o.Claim(i, user.String()))
+			esc := env.L1.BK.GetBalance(env.L1.Ctx, ophosttypes.BridgeAddress(1), "uusdc").Amount
+			pair, err := env.L1.Q.TokenPairByL1Denom(env.L1.Ctx, &ophosttypes.QueryTokenPairByL1DenomRequest{BridgeId: 1, L1Denom: "uusdc"})
+			run.Evaluations++
+			tr = append(tr, fmt.Sprintf("claim %d of %d -> %s; escrow holds %suusdc; TokenPairByL1Denom -> %v err=%v", i+1, parts, res.Class, esc, pair, err))
+			run.Check("C10.token_pair_survives_drained_escrow", res.Class == sim.OK && err == nil && pair.TokenPair.L2Denom == ref.L2Denom(1, "uusdc"), "c10.token_pair_lost", tr, "after withdrawals left %s uusdc in the escrow the pair registered by the first deposit reads %v (err %v)", esc, pair, err)
+		}
+		run.Distinct(fmt.Sprintf("C10/drain/%d", parts))
+	}
+}
+
 func c10Reentrant(run *mon.Run) {
 	run.Declare("C10.reentrant_deposits_get_own_sequences", 3)
 	for _, sameUser := range []bool{true, false} {
@@ -90,6 +120,7 @@ func checkC10(run *mon.Run, rng *mon.Rand, thorough bool) {
 		run.Declare(c, 20)
 	}
 	c10Reentrant(run)
+	c10DrainKeepsPair(run, rng)
 	hist := pick(thorough, 24, 300)
 	steps := pick(thorough, 200, 500)
 	for h := 0; h < hist && !run.TooMany(); h++ {
